@@ -4,7 +4,7 @@ import core, lib, errdisc
 from props import shared, C02
 from core import call_matches, call_names, op_place, backward_slice
 
-CFG_ONLY = ['9s enact-failure-recorded db::Db::enact_logs']      # the stepping API exists only with the `instrumentation` feature
+CFG_ONLY = ['9s stage-failure-recorded db::Db::enact_logs', '9s stage-failure-recorded db::Db::process_commits', '9s stage-failure-recorded db::Db::flush_logs', '9s stage-failure-recorded db::Db::clean_logs', '9s stage-failure-recorded db::Db::process_reindex']      # the stepping API exists only with the `instrumentation` feature
 LEVEL = 'other'
 FLOOR = 40
 EXPLANATION = ('K6a over the whole crate: every call site whose result type carries parity_db::Error / io::Error / a thread result is classified; it must be '
@@ -115,20 +115,31 @@ def run(ctx):
     # a failed enactment leaves the log reader in the middle of a record. kill_logs (Db::drop) resumes enactment unless bg_err is
     # set - so whoever calls DbInner::enact_logs outside the shutdown / open paths has to record its failure there. The workers do
     # (their result goes to store_err); the stepping wrapper of the instrumentation build hands the error to its caller only (F48)
-    callers = sorted(F.direct_callers_of('db::DbInner::enact_logs'))
-    own = {'db::DbInner::kill_logs', 'db::DbInner::replay_all_logs', 'db::DbInner::open', 'db::Db::open_inner'}
+    # (F71: the same holds for every stage - a failed log write leaves reference counts changed in memory that the record never
+    # recorded; the shutdown path must not plan on)
+    STAGES = ['db::DbInner::enact_logs', 'db::DbInner::process_commits', 'db::DbInner::flush_logs', 'db::DbInner::clean_logs', 'db::DbInner::process_reindex']
+    own = {'db::DbInner::kill_logs', 'db::DbInner::replay_all_logs', 'db::DbInner::open', 'db::Db::open_inner', 'db::DbInner::clean_all_logs'} | set(STAGES)
+    callers = sorted(set(c for st in STAGES for c in F.direct_callers_of(st)))
     n9 = 0
     for c in callers:
         if lib.strip_closures(c) in own:
             continue
         n9 += 1
-        # the failure is recorded if the caller (or the function that runs it, for a worker body) hands a Result to store_err
+        # the failure is recorded if the caller (or the function that runs it, for a worker body) hands a Result to store_err,
+        # or passes the stage's result to a helper that does
         up = {c} | set(F.transitive_callers({c}))
         rec = any(F.body(u) is not None and F.body(u).call_sites('db::DbInner::store_err') for u in up)
-        ctx.ob('9s enact-failure-recorded %s' % lib.strip_closures(c), 'K9-agreement', c,
-               'a caller of DbInner::enact_logs outside open / shutdown records a failure in bg_err (store_err), so that Db::drop does not resume enactment from the middle of the failed record',
-               rec, 'the error is only returned to the caller; kill_logs will read on from the middle of the record')
-    ctx.ob('9s0 enact-callers', 'anchor', 'db::DbInner::enact_logs', 'the callers of DbInner::enact_logs were found (commit worker; stepping wrapper in the instrumentation build)', n9 >= 1, str(callers))
+        cb = F.body(c)
+        if not rec and cb is not None:
+            for bi, t in cb.calls():
+                for n in core.call_names(t):
+                    hb = F.body(n)
+                    if hb is not None and n not in STAGES and hb.call_sites('db::DbInner::store_err') and any('Result<' in str(cb.locals[op_place(a_)[0]]) for a_ in t['a'] if op_place(a_) is not None):
+                        rec = True
+        ctx.ob('9s stage-failure-recorded %s' % lib.strip_closures(c), 'K9-agreement', c,
+               'a caller of a pipeline stage (enact_logs, process_commits, flush_logs, clean_logs, process_reindex) outside open / shutdown records a failure in bg_err (store_err), so that Db::drop does not run the stages again over what the failed step left half done',
+               rec, 'the error is only returned to the caller; kill_logs will go on from the middle of the failed step')
+    ctx.ob('9s0 stage-callers', 'anchor', 'db::DbInner', 'the callers of the pipeline stages were found (the four workers; stepping wrappers in the instrumentation build)', n9 >= 4, str(callers))
     shared.torn_record_not_handed_over(ctx, '2')        # a failed append never reaches the non-validating applier
     shared.failed_cleanup_keeps_queue_order(ctx, '2')
     shared.no_log_handle_destroyed_in_cleanup(ctx, '2')   # a failed truncation does not let newer logs be truncated first
